@@ -46,7 +46,7 @@ RegimeFirst == IF Family = "lb"
 Canon1(nb) == { RegimeFirst[j] : j \in 1..nb }
 Canon2(nb) == IF Family = "lb" THEN { NA + 1 - j : j \in 1..(nb \div 2) } \cup { j : j \in 1..(nb - nb \div 2) }
               ELSE { j : j \in 1..nb }
-MkProblem(n, c, S, s) == [n |-> n, cls |-> c, sp |-> WithZeros(Pick(S), NZ(c)), s |-> s]
+MkProblem(n, c, S, s) == [n |-> n, cls |-> c, sp |-> WithZeros(Pick(S), NZ(c)), s |-> s, zs |-> {}]
 
 (* F1 "place": every placement of null / stiffness-only amplitudes (n <= NPlace), canonical spectra, scale 1;
    F2 "spec" : all spectra of the alphabet x scales {1, 2, 1/2} on a few placements *)
@@ -76,7 +76,10 @@ OptsFor(p, tag) ==
          \cup [api : IF tag = "place" /\ ~Thorough THEN {"freq"} ELSE {"freq", "panel_freq"}, sparse : {FALSE},
                num : {2}, sort : BOOLEAN, reduced : BOOLEAN, pos : {0}]
 
-Cases == UNION { { <<p, o>> : o \in OptsFor(p, "place") } : p \in F1 }
+(* F3 (frequency family): one mass column that sums to zero although it is not null; model level only *)
+F3 == IF Family = "lb" THEN {}
+      ELSE { [p EXCEPT !.zs = {CHOOSE i \in Both(p) : \A j \in Both(p) : i <= j}] : p \in { q \in F1 : q.n <= 4 } }
+Cases == UNION { { <<p, o>> : o \in OptsFor(p, "place") } : p \in F1 \cup F3 }
          \cup UNION { { <<p, o>> : o \in OptsFor(p, "spec") } : p \in F2 }
 MCInit == st \in { InitState(c[1], c[2], Dev) : c \in Cases }
 (* END: one compact line per finished behaviour (which actions ran, how it ended, which antecedents held) *)
